@@ -275,7 +275,8 @@ fn seed_cases() -> Vec<Case> {
 
 pub fn run(o: &Opts) {
     let mut st = Stats::new();
-    let mut sh = Shards::new(&o.out, o.shards, HEADER);
+    // smaller files in the thorough tier: coqc memory grows with the size of the case literal
+    let mut sh = Shards::new(&o.out, if o.thorough { o.shards * 6 } else { o.shards }, HEADER);
     st.rule = "Camt053 XML generated from statement data (1-2 statements of 0-8 entries; credits and debits; entries without details, with one detail, batches of 2-4 details summing to the entry; included / not-included / zero / credit charge records on entries and details with TxAmt explaining included charges; value date absent / equal / different, Dt and DtTm; both row orders; OPBD/CLBD in either order; per-record rewrite rules giving payee / account / pending) plus inconsistent variants (wrong closing balance, batch not summing, unexplained charge, missing balance), foreign-currency details with exchange rates and error variants; run through import(Format::IsoCamt053) + to_double_entry, printed as ImportCmd does and fed with a funding transaction to report::process; non-trivial = at least 2 entries and at least one batch or non-zero charge; distinct by XML + configuration".into();
     st.assumptions.push("quick-xml/serde deserialisation is an oracle: the model starts from the statement data the XML was written from (xmlnode is a private module)".into());
     st.assumptions.push("amount mantissas below 10^7 with scale <= 4: every Decimal sum is exact; no negative-zero amount text in the XML".into());
